@@ -73,8 +73,8 @@ theorem framed_send_receive (sends : List (Bytes × List WAns))
 
 /-- the receive loop loses, duplicates and reorders nothing, for every schedule -/
 theorem ws_no_loss (c : WsConn) (sched : List WsAns) (fuel : Nat) :
-    (wsReceive c sched fuel).outs ++ (wsReceive c sched fuel).conn.buf ++ (wsReceive c sched fuel).conn.sock
-      = c.buf ++ c.sock := wsReceive_order fuel c sched
+    (wsReceive c sched fuel).outs ++ binaries ((wsReceive c sched fuel).conn.buf ++ (wsReceive c sched fuel).conn.sock)
+      = binaries (c.buf ++ c.sock) := wsReceive_order fuel c sched
 
 /-- `WaitNextEvent` means nothing deliverable is left — neither on the socket nor in the codec's
 read-ahead buffer — so no message waits for traffic that may never come. -/
@@ -85,14 +85,23 @@ theorem wsReceive_drains (c : WsConn) (sched : List WsAns) (fuel : Nat)
   Stream.wsReceive_drains fuel c sched hl h
 
 /-- hence every event that ends with `WaitNextEvent` has delivered everything that had arrived -/
-theorem ws_event_delivers_all (arrived : List Bytes) (sched : List WsAns) (fuel : Nat)
+theorem ws_event_delivers_all (arrived : List WsMsg) (sched : List WsAns) (fuel : Nat)
     (hl : LegalWs { sock := arrived, buf := [] } sched)
     (h : (wsReceive { sock := arrived, buf := [] } sched fuel).status = some .waitNextEvent) :
-    (wsReceive { sock := arrived, buf := [] } sched fuel).outs = arrived := by
+    (wsReceive { sock := arrived, buf := [] } sched fuel).outs = binaries arrived := by
   have h1 := ws_no_loss { sock := arrived, buf := [] } sched fuel
   obtain ⟨h2, h3⟩ := wsReceive_drains { sock := arrived, buf := [] } sched fuel hl h
   rw [h2, h3] at h1
-  simpa using h1
+  simpa [binaries] using h1
+
+/-- in particular a Binary message that arrives in the same read as a Ping, Pong or Text message in
+front of it is delivered by that very event: control messages do not end the loop -/
+theorem ws_control_frames_do_not_stall (data : Bytes) (pre : List WsMsg) (sched : List WsAns) (fuel : Nat)
+    (hl : LegalWs { sock := pre ++ [some data], buf := [] } sched)
+    (h : (wsReceive { sock := pre ++ [some data], buf := [] } sched fuel).status = some .waitNextEvent) :
+    data ∈ (wsReceive { sock := pre ++ [some data], buf := [] } sched fuel).outs := by
+  rw [ws_event_delivers_all _ sched fuel hl h]
+  simp [binaries]
 
 /-- `send`: `Sent` means exactly one message was handed to the transport and it was within the
 declared maximum; a payload above the maximum transmits nothing. -/
@@ -116,7 +125,7 @@ example : (session tcpInputBufferSize (fun st ch => decode st ch) { st := [] } e
   decide +kernel
 /-- three WebSocket messages read ahead by the codec in one socket access: all three are delivered
 by the same event (the as-found loop stopped after the first: `MioModel/AsFound/Stream.lean`) -/
-example : (wsReceive { sock := [[1], [2], [3]], buf := [] } [.fill 3, .wouldBlock] 10).outs = [[1], [2], [3]] := by
+example : (wsReceive { sock := [some [1], none, some [2], some [3]], buf := [] } [.fill 4, .wouldBlock] 10).outs = [[1], [2], [3]] := by
   decide
 
 end Mio.C01
